@@ -16,7 +16,8 @@ PROPS = {
         "level": "proof",
         "verus": [("kmer", ["u64", "u128"])],
         "functions": BITS_FNS + SPLIT_FNS,
-        "kani": [("tables", ["oracle_bijective", "iupac_union", "iupac_order_independent", "encode_decode_consistent", "valid_base_n"]),
+        "kani": [("tables", ["oracle_bijective", "iupac_union", "iupac_order_independent", "encode_decode_consistent", "valid_base_n", "leaf_fns_all_bytes"]),
+                 ("bitops", None),
                  ("palin", None), ("tablefrag", ["add_to_dict_modify_is_union", "add_to_dict_insert_is_singleton", "add_to_dict_two_observations_commute"])],
         "bounded": [],
     },
@@ -26,7 +27,7 @@ PROPS = {
         "functions": ["encode_base", "valid_base", "rc_base", "UInt::rev_comp", "UInt::generate_masks",
                       "SplitKmer::build", "SplitKmer::update_rc", "SplitKmer::roll_fwd", "SplitKmer::new",
                       "SplitKmer::get_curr_kmer", "SplitKmer::get_next_kmer", "SplitKmer::self_palindrome"],
-        "kani": [("tables", ["iupac_order_independent", "encode_decode_consistent", "valid_base_n"]), ("palin", None), ("tablefrag", ["add_to_dict_two_observations_commute"])],
+        "kani": [("tables", ["iupac_order_independent", "encode_decode_consistent", "valid_base_n", "leaf_fns_all_bytes"]), ("bitops", None), ("palin", None), ("tablefrag", ["add_to_dict_two_observations_commute"])],
         "bounded": [],
     },
     "C06": {
@@ -34,7 +35,7 @@ PROPS = {
         "verus": [("rowfrag", [None])],
         "functions": ["is_ambiguous", "filter.keep_noconst", "filter.keep_noambig", "filter.collect_types", "filter.weight_step", "filter.mask_cell",
                       "update_counts.count_pred", "new.count_pred", "new.zero_to_gap"],
-        "kani": [("tables", ["oracle_bijective", "is_ambiguous_classification"]), ("wrappers", None), ("rowfragk", ["count_pred_all_bytes"])],
+        "kani": [("tables", ["oracle_bijective", "is_ambiguous_classification", "leaf_fns_all_bytes"]), ("wrappers", None), ("rowfragk", ["count_pred_all_bytes"])],
         "bounded_quick": [{"group": "rowfragk", "name": "bounded_keep_noconst_len4", "bound": "rows of length <= 4 over 8 representative symbols"},
                           {"group": "rowfragk", "name": "bounded_keep_noambig_len4", "bound": "rows of length <= 4 over 8 representative symbols"},
                           {"group": "rowfragk", "name": "bounded_keep_noambig_or_const_len4", "bound": "rows of length <= 4 over 8 representative symbols"},
@@ -49,7 +50,7 @@ PROPS = {
         "functions": QUAL_FNS + ["KmerFilter::reduce", "KmerFilter::cheap_mix", "KmerFilter::fingerprint",
                                  "KmerFilter::location", "KmerFilter::bloom_add_and_check",
                                  "NtHashIterator::new", "NtHashIterator::roll_fwd", "NtHashIterator::curr_hash"],
-        "kani": [("nthash", None), ("readfilter", None)],
+        "kani": [("nthash", None), ("readfilter", None), ("bitops", None), ("tables", ["leaf_fns_all_bytes"])],
         "bounded": [],
     },
     "C04": {
@@ -58,7 +59,7 @@ PROPS = {
         "functions": ["AlnWriter::new", "AlnWriter::total_size", "AlnWriter::fill_fwd_bases", "AlnWriter::fill_contig",
                       "AlnWriter::write_split_kmer", "AlnWriter::finalise", "AlnWriter::get_seq", "is_ambiguous",
                       "RefSka::new.repeat_coords"],
-        "kani": [("tables", ["oracle_bijective", "rc_iupac_complement", "rc_iupac_fixed_points", "is_ambiguous_classification"]), ("tablefrag", ["map_strand_correction"])],
+        "kani": [("tables", ["oracle_bijective", "rc_iupac_complement", "rc_iupac_fixed_points", "is_ambiguous_classification", "leaf_fns_all_bytes"]), ("tablefrag", ["map_strand_correction"])],
         "bounded": [],
     },
     "C05": {
@@ -97,9 +98,29 @@ PROPS = {
         "functions": BITS_FNS + ["SplitKmer::build", "SplitKmer::update_rc", "SplitKmer::roll_fwd", "SplitKmer::new",
                                  "SplitKmer::get_curr_kmer", "SplitKmer::get_next_kmer", "SplitKmer::get_middle_pos",
                                  "NtHashIterator::new", "NtHashIterator::roll_fwd", "NtHashIterator::curr_hash"],
-        "kani": [("bitops", None), ("nthash", None), ("rollstep", None)],
+        "kani": [("bitops", None), ("nthash", None), ("rollstep", None), ("tables", ["leaf_fns_all_bytes"])],
         "bounded": [],
     },
+}
+
+# Contracts that are ALSO discharged, completely (every value, every k), by a Kani harness on the real code.  If only
+# the Verus proof of such a function's own body fails (typically after a behaviour-preserving rewrite of its
+# expressions: `a | b` vs `b | a` is not the same term to Z3 outside by(bit_vector)), the driver accepts the Kani
+# discharge of the same contract instead; callers are verified against the contract either way (modular).
+# "{w}" is replaced by the width of the failing unit.  Equivalence of the two formulations is argued in DESIGN §9.2.
+DISCHARGED_BY = {
+    "UInt::rev_comp": ("bitops", ["rev_comp_per_base_{w}"]),
+    "UInt::generate_masks": ("bitops", ["masks_{w}"]),
+    "UInt::skalo_mask": ("bitops", ["masks_{w}"]),
+    "UInt::lsb_u8": ("bitops", ["small_ops_{w}"]),
+    "UInt::as_u8": ("bitops", ["small_ops_{w}"]),
+    "UInt::from_encoded_base": ("bitops", ["small_ops_{w}"]),
+    "UInt::zero_init": ("bitops", ["small_ops_{w}"]),
+    "encode_base": ("tables", ["leaf_fns_all_bytes"]),
+    "decode_base": ("tables", ["leaf_fns_all_bytes"]),
+    "rc_base": ("tables", ["leaf_fns_all_bytes"]),
+    "valid_base": ("tables", ["leaf_fns_all_bytes"]),
+    "is_ambiguous": ("tables", ["leaf_fns_all_bytes"]),
 }
 
 # where each Kani harness group is attached in the scratch copy of /repo (pure append of a `mod` line)
